@@ -45,6 +45,9 @@ class Contract:
         self.scope = opts.get("scope")
         self.opts = opts
         self.requires, self.ensures, self.canaries, self.lemmas = [], [], [], []
+        self.skolem_ensures = []
+        self.delegates = None     # (callee qualname, {callee param: expr over own params})
+        self.sets = []            # (attribute name, expr): self.<name> is <expr> after the call (constructors)
         self.raises = []          # Clause(kind raises, expr=when, name=exc)
         self.raises_none = False
         self.returns_expr = None
@@ -77,6 +80,8 @@ class Contract:
             elif fn == "returns":
                 n_e += 1
                 self.returns_expr = Clause("returns", call.args[0], nm or "returns", kw, st.lineno)
+            elif fn == "skolem_ensures":
+                self.skolem_ensures.append(Clause("skolem", call.args[0], nm, kw, st.lineno))
             elif fn == "lemma":
                 self.lemmas.append(Clause("lemma", call.args[0], nm or f"lemma#{len(self.lemmas)+1}", kw, st.lineno))
             elif fn == "canary":
@@ -93,6 +98,10 @@ class Contract:
                 self.loops[label] = LoopRule(label, kind, kw)
             elif fn == "field":
                 self.fields[ast.literal_eval(call.args[0])] = call.args[1]
+            elif fn == "delegates":
+                self.delegates = (ast.literal_eval(call.args[0]), kw)
+            elif fn == "sets":
+                self.sets.append((ast.literal_eval(call.args[0]), call.args[1]))
             elif fn == "note":
                 self.notes.append(ast.literal_eval(call.args[0]))
             elif fn == "frame":
@@ -148,6 +157,13 @@ class Contract:
         line = getattr(node, "lineno", "?")
         env = self.spec_env(interp, bound)
         short = self.qualname.replace("pyrepseq.", "")
+        if self.delegates is not None:
+            callee = interp.registry.get(self.delegates[0])
+            m, fnode, cls = interp.repo.find_function(callee.qualname)
+            cb = {k: self.eval_spec(interp, ex, env) for k, ex in self.delegates[1].items()}
+            from .symex import Env
+            full = interp.bind_args(fnode.args, [], cb, Env(m), node, callee.qualname.split(".")[-1])
+            return callee.apply(interp, full, node)
         tag = f"contract:{short}" + (" (trusted)" if self.trusted else "")
         for cl in self.requires:
             t = interp.as_bool_term(self.eval_spec(interp, cl.expr, env), node)
@@ -172,14 +188,21 @@ class Contract:
             for fname, texpr in self.fields.items():
                 ty = self.type_of(texpr)
                 selfv.attrs[fname] = interp.born(ty.fresh(f"{short.split('.')[-2]}_{fname}", ctx))
+        for fname, ex in self.sets:
+            bound["self"].attrs[fname] = self.eval_spec(interp, ex, env)
         # result
         if self.returns_expr is not None:
-            res = self.eval_spec(interp, self.returns_expr.expr, env)
+            interp.spec_fork_ok = True
+            try:
+                res = self.eval_spec(interp, self.returns_expr.expr, env)
+            finally:
+                interp.spec_fork_ok = False
         else:
             rt = self.return_type()
             res = NONE if rt is None else interp.born(rt.fresh("ret_" + short.split(".")[-1], ctx))
         env.vars["result"] = res
-        for cl in self.ensures:
+        definitional = self.returns_expr is not None and "assume_only" in self.returns_expr.kw
+        for cl in ([] if definitional else self.ensures) + self.skolem_ensures:
             t = interp.as_bool_term(self.eval_spec(interp, cl.expr, env), node)
             ctx.assume(t, None)
         return res
@@ -189,6 +212,7 @@ class Registry:
     def __init__(self):
         self.contracts = {}
         self.files = []
+        self.predicates = {}      # name -> (FunctionDef, path)
 
     def get(self, qualname):
         return self.contracts.get(qualname)
@@ -207,6 +231,8 @@ class Registry:
             if not isinstance(node, ast.FunctionDef):
                 continue
             for dec in node.decorator_list:
+                if isinstance(dec, ast.Name) and dec.id == "predicate":
+                    self.predicates[node.name] = (node, path)
                 if isinstance(dec, ast.Call) and isinstance(dec.func, ast.Name) and dec.func.id == "contract":
                     qual = ast.literal_eval(dec.args[0])
                     opts = {k.arg: ast.literal_eval(k.value) for k in dec.keywords}
